@@ -1210,6 +1210,7 @@ func run(c *fw.Ctx) {
 	g.famMemory()
 	g.famStack()
 	g.famAlias()
+	g.famSequence()
 	g.famJump()
 	g.famProg()
 	var nops int64
@@ -1236,6 +1237,15 @@ func replay(c *fw.Ctx, raw json.RawMessage) {
 		os.Exit(3)
 	}
 	g := newChecker(c, k.Table, func(int64) bool { return true })
+	if k.Fam == "sequence" {
+		var sc seqCase
+		if json.Unmarshal(raw, &sc) == nil {
+			if v := g.judgeSeq(&sc); v != nil {
+				c.Violation(v.sig, "sequence", v.msg, &sc)
+			}
+		}
+		return
+	}
 	code, err := hex.DecodeString(k.Code)
 	if err != nil {
 		fmt.Fprintln(os.Stderr, err)
